@@ -564,6 +564,11 @@ def dispatchTun : String → List Val → Option Val
   | "tab.note", [t, n, int w] => do
       let tu ← TunDec.tuning t; let x ← TunDec.note2 n
       pure (TunDec.linesVal (Tab.fromNote tu x w))
+  | "tab.note_pinned", [t, int ps, int pf, int w] => do
+      let tu ← TunDec.tuning t
+      pure (TunDec.linesVal (do
+        let n ← Tun.getNote tu ps pf 24
+        Tab.fromNotePinned tu n ps pf w))
   | "tab.nc", [t, ns, int w] => do
       let tu ← TunDec.tuning t; let c ← SeqDec.ncOf ns
       pure (TunDec.linesVal (Tab.fromNC tu (c.getD []) w))
